@@ -1,5 +1,184 @@
-import Banyan.Model.Util
-open Banyan
+import Banyan.Model.C04
+open Banyan Banyan.FS Banyan.C04
 
-/- stub: model driver for C04 not built yet -/
-def main : IO Unit := runDriver fun _ => "bad-op"
+/-!
+Line protocol of the C04 model driver (names: `p<id>` part, `s<epoch>` manifest, real file names, `.tmp`
+suffix, `junk<k>`, `zz<k>.snp`, `failed-parts`; ids decimal; paths joined by `/`).
+
+  steps <fresh> <op>...                      step list of the history, one segment per op, segments joined by ` | `
+  kill <cut> <fresh> <op>...                 volatile tree after `cut` steps + `recover` of it
+  pend <cut> <fresh> <op>...                 pending directory operations and un-fsynced inodes after `cut` steps
+  power <cut> <mask> <data> <fresh> <op>...  durable tree + the pending ops whose bit in `mask` is 1, data choice
+                                             `<ino>:<len>,...` (`-` none) + `recover` of it
+  rec <entry>...                             `recover` of an explicit tree (entries `path/` or `path=<tok.tok..>`)
+  reclegacy <entry>...                       the same with `initTSTable` as written
+-/
+
+def pfileName : PFile → String
+  | .mt => "meta.bin" | .primary => "primary.bin" | .timestamps => "timestamps.bin" | .fv => "fv.bin"
+  | .tf => "tf1.tf" | .tfm => "tf1.tfm" | .tagType => "tag.type" | .metadata => "metadata.json"
+
+def showName : Name → String
+  | .part id => s!"p{id}"
+  | .snp e => s!"s{e}"
+  | .pf f => pfileName f
+  | .tmp n => showName n ++ ".tmp"
+  | .junk k => s!"junk{k}"
+  | .junkSnp k => s!"zz{k}.snp"
+  | .failedParts => "failed-parts"
+
+def showPath (p : Path) : String := if p.isEmpty then "." else "/".intercalate (p.map showName)
+
+def allPFiles : List PFile := [.mt, .primary, .timestamps, .fv, .tf, .tfm, .tagType, .metadata]
+
+partial def parseName (s : String) : Option Name :=
+  if s.endsWith ".tmp" then (parseName (String.ofList (s.toList.take (s.length - 4)))).map Name.tmp
+  else if s == "failed-parts" then some .failedParts
+  else match allPFiles.find? (fun f => pfileName f == s) with
+  | some f => some (.pf f)
+  | none =>
+    match s.toList with
+    | 'p' :: r => (String.ofList r).toNat?.map Name.part
+    | 's' :: r => (String.ofList r).toNat?.map Name.snp
+    | 'j' :: 'u' :: 'n' :: 'k' :: r => (String.ofList r).toNat?.map Name.junk
+    | 'z' :: 'z' :: r =>
+      let r' := String.ofList r
+      if r'.endsWith ".snp" then (String.ofList (r.take (r.length - 4))).toNat?.map Name.junkSnp else none
+    | _ => none
+
+def parsePath (s : String) : Option Path :=
+  if s == "." then some [] else (s.splitOn "/").mapM parseName
+
+def showToks (c : Content) : String := if c.isEmpty then "-" else ".".intercalate (c.map toString)
+
+def parseToks (s : String) : Option Content :=
+  if s == "-" then some [] else (s.splitOn ".").mapM (·.toNat?)
+
+def showStep : Step → String
+  | .mkdir p => s!"mkdir {showPath p}"
+  | .create p => s!"create {showPath p}"
+  | .write p c => s!"write {showPath p} {showToks c}"
+  | .fsync p => s!"fsync {showPath p}"
+  | .close p => s!"close {showPath p}"
+  | .rename a b => s!"rename {showPath a} {showPath b}"
+  | .fsyncdir d => s!"fsyncdir {showPath d}"
+  | .unlink p => s!"unlink {showPath p}"
+  | .rmdir p => s!"rmdir {showPath p}"
+  | .link a b => s!"link {showPath a} {showPath b}"
+
+def parseSel (s : String) : Option (List Nat) :=
+  if s.isEmpty then some [] else (s.splitOn ",").mapM (·.toNat?)
+
+def parseOp (s : String) : Option Op :=
+  match s.toList with
+  | 'B' :: r => (String.ofList r).toNat?.map Op.batch
+  | ['F'] => some .flush
+  | ['G'] => some .mergeMem
+  | ['R'] => some .release
+  | 'M' :: r => (parseSel (String.ofList r)).map (fun l => Op.merge l false)
+  | 'H' :: r => (parseSel (String.ofList r)).map (fun l => Op.merge l true)
+  | _ => none
+
+def parseHist (ws : List String) : Option (Tbl × List Op) :=
+  match ws with
+  | fresh :: ops => do
+    let e ← fresh.toNat?
+    let os ← ops.mapM parseOp
+    pure ({ epoch := e }, os)
+  | [] => none
+
+def insertStr (x : String) : List String → List String
+  | [] => [x]
+  | y :: ys => if x ≤ y then x :: y :: ys else y :: insertStr x ys
+
+def sortStr (xs : List String) : List String := xs.foldr insertStr []
+
+/-- entries of a resolved name space; files carry their tokens and (when known) inode -/
+def showTreeIno (ns : NS Name) (data : Nat → Content) : String :=
+  let t := resolve ns data
+  let es := (reachable t).filterMap (fun kv =>
+    match Map.get ns kv.1 with
+    | some .dir => some (showPath kv.1 ++ "/")
+    | some (.file i) => some s!"{showPath kv.1}={showToks (data i)}@{i}"
+    | none => none)
+  " ".intercalate (sortStr es.eraseDups)
+
+def showTreeNames (t : Tree) : String :=
+  let es := (reachable t).map (fun kv =>
+    match kv.2 with
+    | .dir => showPath kv.1 ++ "/"
+    | .file _ => showPath kv.1)
+  ",".intercalate (sortStr es.eraseDups)
+
+def showRec : RecResult → String
+  | .panic w => s!"PANIC {w}"
+  | .ok r =>
+    let e := match r.epoch with | some e => toString e | none => "-"
+    let ps := ";".intercalate (r.parts.map (fun p => s!"{p.1}:{",".intercalate (p.2.map toString)}"))
+    s!"OK epoch={e} parts={ps} tree={showTreeNames r.tree}"
+
+def parseEntry (s : String) : Option (Path × TNode) :=
+  if s.endsWith "/" then (parsePath (String.ofList (s.toList.take (s.length - 1)))).map (fun p => (p, TNode.dir))
+  else match s.splitOn "=" with
+  | [p, c] => do
+    let p' ← parsePath p
+    let c' ← parseToks ((c.splitOn "@").headD "")
+    pure (p', TNode.file c')
+  | _ => none
+
+def parseDataChoice (s : String) : Option (List (Nat × Nat)) :=
+  if s == "-" then some [] else (s.splitOn ",").mapM (fun kv =>
+    match kv.splitOn ":" with
+    | [a, b] => do pure ((← a.toNat?), (← b.toNat?))
+    | _ => none)
+
+def showDOp : DOp Name → String
+  | .add p .dir => s!"add {showPath p}/"
+  | .add p (.file i) => s!"add {showPath p}@{i}"
+  | .del p => s!"del {showPath p}"
+  | .ren a b => s!"ren {showPath a} {showPath b}"
+
+def handle (line : String) : String :=
+  match words line with
+  | "steps" :: rest =>
+    match parseHist rest with
+    | some (t, os) => " | ".intercalate ((histSegments t os).map (fun seg => "; ".intercalate (seg.map showStep)))
+    | none => "bad-op"
+  | "kill" :: cut :: rest =>
+    match cut.toNat?, parseHist rest with
+    | some k, some (t, os) =>
+      let s := run ({} : St) ((histSteps t os).take k)
+      s!"{showTreeIno s.vol s.vdataOf} || {showRec (recover (crashKill s))}"
+    | _, _ => "bad-op"
+  | "pend" :: cut :: rest =>
+    match cut.toNat?, parseHist rest with
+    | some k, some (t, os) =>
+      let s := run ({} : St) ((histSteps t os).take k)
+      let inos := (List.range s.next).filter (fun i => s.ddataOf i != s.vdataOf i)
+      let ds := ",".intercalate (inos.map (fun i => s!"{i}:{(s.ddataOf i).length}:{(s.vdataOf i).length}"))
+      s!"{"; ".intercalate (s.pend.map showDOp)} || {if ds.isEmpty then "-" else ds}"
+    | _, _ => "bad-op"
+  | "power" :: cut :: mask :: dc :: rest =>
+    match cut.toNat?, parseDataChoice dc, parseHist rest with
+    | some k, some choice, some (t, os) =>
+      let s := run ({} : St) ((histSteps t os).take k)
+      let bits := mask.toList
+      let sub := (s.pend.zip (bits ++ List.replicate s.pend.length '0')).filterMap
+        (fun ob => if ob.2 == '1' then some ob.1 else none)
+      let data := fun i => match choice.find? (·.1 == i) with
+        | some (_, n) => (s.vdataOf i).take (max n (s.ddataOf i).length)
+        | none => s.ddataOf i
+      let ns := applyOps sub s.dur
+      s!"{showTreeIno ns data} || {showRec (recover (resolve ns data))}"
+    | _, _, _ => "bad-op"
+  | "rec" :: es =>
+    match es.mapM parseEntry with
+    | some t => showRec (recover t)
+    | none => "bad-op"
+  | "reclegacy" :: es =>
+    match es.mapM parseEntry with
+    | some t => showRec (recoverLegacy t)
+    | none => "bad-op"
+  | _ => "bad-op"
+
+def main : IO Unit := runDriver handle
